@@ -7,6 +7,7 @@ import (
 	"strings"
 	"sync"
 	"sync/atomic"
+	"time"
 
 	"github.com/elastos/Elastos.ELA/common"
 	"github.com/elastos/Elastos.ELA/common/config"
@@ -27,11 +28,23 @@ import (
 
 var c40Extra []func(c *kit.Ctx, nd *node.Node, stop *int32, wg *sync.WaitGroup, guard func(role string, f func())) // later workloads (DPoS-era roles) register here
 
+// DPoS / CR era storms (c40_dpos.go): the chain a shard runs on, the config
+// tweak of that era, single-threaded preparation before the storm, and the
+// helpers extra roles use to join it.
+var c40EraOf func(c *kit.Ctx) (era string, cross720 bool) // nil = every shard pow-era, crossing the 720-block checkpoint save
+var c40EraTweak func(era string) func(cfg *config.Configuration)
+var c40Prepare []func(c *kit.Ctx, nd *node.Node)
+var c40AfterStorm []func(c *kit.Ctx, nd *node.Node) // single threaded, after every role has stopped
+var c40Boot *node.Boot
+var c40Start func(role string, body func())
+var c40Op func(role, kind string)
+
 func init() {
 	kit.Register(&kit.Spec{
-		ID:   "C40",
-		Race: true,
-		Rule: "one storm per shard (seeded): a live node under the -race build with 1 block producer (honest blocks containing pool txs, periodic depth-1/2 reorgs), 4 submitters (signed transfers to AppendToTxPool, incl. deliberate double spends), 6 RPC-handler queriers and 3 direct store/pool readers running concurrently while the chain crosses checkpoint save heights; distinct = (shard, role, operation kind); non-trivial = the operation executed against the live node while at least one other role was running",
+		ID:      "C40",
+		Race:    true,
+		RaceSig: c40RaceFamily,
+		Rule:    "one storm per shard (seeded): a live node under the -race build with 1 block producer (honest blocks containing pool txs, periodic depth-1/2 reorgs), 4 submitters (signed transfers to AppendToTxPool, incl. deliberate double spends), 6 RPC-handler queriers and 3 direct store/pool readers running concurrently while the chain crosses checkpoint save heights; distinct = (shard, role, operation kind); non-trivial = the operation executed against the live node while at least one other role was running",
 		Shards: func(tier string) int {
 			if tier == "thorough" {
 				return 12
@@ -83,8 +96,17 @@ func topRepoFrame(stack string) string {
 
 func runC40(c *kit.Ctx) {
 	r := c.Rand("c40")
+	t0 := time.Now() // (cost figures for the evidence only; no verdict depends on them)
+	era, cross720 := "", true
+	if c40EraOf != nil {
+		era, cross720 = c40EraOf(c)
+	}
+	c.Inc("storms_era:" + era)
 	nd, err := node.Start(node.Options{Dir: c.WorkDir, CoinbaseMaturity: 2, NeedSave: true, Tweak: func(cfg *config.Configuration) {
 		cfg.TxCacheVolume = 50
+		if era != "" {
+			c40EraTweak(era)(cfg)
+		}
 	}})
 	if err != nil {
 		c.Inconclusive("node start: %v", err)
@@ -99,43 +121,76 @@ func runC40(c *kit.Ctx) {
 	servers.Pow = nd.Pow
 
 	// ---- setup (single threaded): fund accounts with many UTXOs ----
-	if err := nd.MineN(3); err != nil {
-		c.Inconclusive("mine: %v", err)
-		return
-	}
 	accts := []int{2, 3, 4, 5}
 	perAcct := c.N(120, 400)
-	g := nd.GenesisUTXO()
 	val := common.Fixed64(10 * 1e8)
 	var utx [][]node.UTXORef
-	cur := g
-	for ai, a := range accts {
-		var outs []node.Out
-		for k := 0; k < perAcct; k++ {
-			outs = append(outs, node.Out{To: node.Key(a).ProgramHash, Value: val})
-		}
-		rest := cur.Value - val*common.Fixed64(perAcct) - 10000
-		outs = append(outs, node.Out{To: nd.Found.ProgramHash, Value: rest})
-		tx := node.Transfer([]node.UTXORef{cur}, outs, common2.TxVersion09)
-		if _, err := nd.MineTip(tx); err != nil {
-			c.Inconclusive("funding %d: %v", ai, err)
+	mineOne := func() error { return nd.MineN(1) }
+	if era == "" {
+		if err := nd.MineN(3); err != nil {
+			c.Inconclusive("mine: %v", err)
 			return
 		}
-		var us []node.UTXORef
-		for k := 0; k < perAcct; k++ {
-			us = append(us, node.UTXORef{TxID: tx.Hash(), Index: uint16(k), Value: val, Owner: node.Key(a)})
+		g := nd.GenesisUTXO()
+		cur := g
+		for ai, a := range accts {
+			var outs []node.Out
+			for k := 0; k < perAcct; k++ {
+				outs = append(outs, node.Out{To: node.Key(a).ProgramHash, Value: val})
+			}
+			rest := cur.Value - val*common.Fixed64(perAcct) - 10000
+			outs = append(outs, node.Out{To: nd.Found.ProgramHash, Value: rest})
+			tx := node.Transfer([]node.UTXORef{cur}, outs, common2.TxVersion09)
+			if _, err := nd.MineTip(tx); err != nil {
+				c.Inconclusive("funding %d: %v", ai, err)
+				return
+			}
+			var us []node.UTXORef
+			for k := 0; k < perAcct; k++ {
+				us = append(us, node.UTXORef{TxID: tx.Hash(), Index: uint16(k), Value: val, Owner: node.Key(a)})
+			}
+			utx = append(utx, us)
+			cur = node.UTXORef{TxID: tx.Hash(), Index: uint16(perAcct), Value: rest, Owner: nd.Found}
 		}
-		utx = append(utx, us)
-		cur = node.UTXORef{TxID: tx.Hash(), Index: uint16(perAcct), Value: rest, Owner: nd.Found}
+	} else {
+		// DPoS / CR era: elected producers, committee in office, claimed nodes (dposv2: DPoS v2 active)
+		defer nd.UnhookEvents()
+		mineOne = func() error { return nd.MineNDPoS(1) }
+		boot, err := nd.Bootstrap(era, node.BootOpts{UTXOsPerAccount: 40})
+		if err != nil {
+			c.Inconclusive("bootstrap %s: %v", era, err)
+			return
+		}
+		c40Boot = boot
+		c.Max("max:bootstrap_height:"+era, int64(nd.Height()))
+		for ai, a := range accts {
+			refs, err := nd.Fund([]int{a}, perAcct, val)
+			if err != nil {
+				c.Inconclusive("funding %d (%s): %v", ai, era, err)
+				return
+			}
+			utx = append(utx, refs[0])
+		}
 	}
 	// get close to the checkpoint save height so that the storm crosses it
 	target := uint32(700)
+	if !cross720 {
+		target = nd.Height() + 3
+		c.Inc("storms_below_checkpoint_save_height")
+	} else {
+		c.Inc("storms_crossing_checkpoint_save_height:" + era)
+	}
 	for nd.Height() < target {
-		if err := nd.MineN(1); err != nil {
+		if err := mineOne(); err != nil {
 			c.Inconclusive("mine to %d: %v", target, err)
 			return
 		}
 	}
+	for _, p := range c40Prepare {
+		p(c, nd)
+	}
+	c.Max(fmt.Sprintf("max:setup_seconds:%s:cross720=%v", era, cross720), int64(time.Since(t0).Seconds()))
+	t1 := time.Now()
 
 	var stop int32
 	var running int32
@@ -162,15 +217,20 @@ func runC40(c *kit.Ctx) {
 		}()
 	}
 
+	c40Start, c40Op = start, op
 	blocksGoal := c.N(60, 220)
+	if era != "" {
+		blocksGoal = c.N(60, 120) // a confirmed DPoS block costs ~1.4 s under -race with 20 goroutines hammering the node
+	}
 	// ---- producer ----
 	start("producer", func() {
 		defer atomic.StoreInt32(&stop, 1)
 		pr := c.Rand("producer")
-		for i := 0; i < blocksGoal; i++ {
+		failed := 0
+		for i := 0; i < blocksGoal && failed < 6; i++ {
 			c.Begin("producer block %d height %d", i, nd.Height())
 			guard("producer", func() {
-				if i%9 == 8 {
+				if i%9 == 8 && (era == "" || i%27 == 26) {
 					// reorg: build a heavier empty branch from the tip's parent (depth 1) or grandparent (depth 2)
 					tip := nd.TipBlock()
 					depth := 1 + pr.Intn(2)
@@ -185,7 +245,11 @@ func runC40(c *kit.Ctx) {
 					parent := base
 					ok := true
 					for d := 0; d <= depth; d++ {
-						b, err := nd.Assemble(node.BlockSpec{Parent: parent, Nonce: uint64(pr.Int63()) | 1})
+						asm := nd.Assemble
+						if era != "" {
+							asm = nd.AssembleOn // connected without a confirm (chain.ProcessBlock(b, nil)): the DPoS state is rolled back under the queriers
+						}
+						b, err := asm(node.BlockSpec{Parent: parent, Nonce: uint64(pr.Int63()) | 1})
 						if err != nil {
 							ok = false
 							break
@@ -198,9 +262,16 @@ func runC40(c *kit.Ctx) {
 						nd.PostBlock(b)
 						parent = b
 					}
+					if ok && era != "" && !nd.Tip().IsEqual(parent.Hash()) {
+						ok = false
+					}
 					if ok {
 						c.Inc("reorgs")
+						c.Inc("reorgs:" + era)
 						op("producer", "reorg")
+					} else if era != "" {
+						c.Inc("reorg_refused:" + era)
+						nd.PostBlock(nd.TipBlock())
 					}
 					return
 				}
@@ -211,16 +282,33 @@ func runC40(c *kit.Ctx) {
 				// keep only txs that pass context check now (as pow.GenerateBlock does)
 				var sel []interfaces.Transaction
 				for _, tx := range txs {
+					if era != "" && c40NodeGenerated(tx) {
+						continue // MineTipDPoS packs the node-generated txs itself
+					}
 					if _, e := nd.Chain.CheckTransactionContext(nd.Height()+1, tx, 0, 0); e == nil {
 						sel = append(sel, tx)
 					}
 				}
-				if _, err := nd.MineTip(sel...); err != nil {
+				mine := nd.MineTip
+				if era != "" {
+					mine = nd.MineTipDPoS
+				}
+				if _, err := mine(sel...); err != nil {
 					// a selected tx may have been invalidated concurrently: mine an empty block instead
-					if _, err2 := nd.MineTip(); err2 != nil {
-						c.Note("producer: empty block rejected: %v", err2)
+					if era != "" {
+						nd.TxPool.CheckAndCleanAllTransactions() // (stale node-generated txs would be packed again)
+					}
+					if _, err2 := mine(); err2 != nil {
+						c.Inc("producer_empty_block_rejected")
+						if failed++; failed <= 3 {
+							c.Note("producer: empty block rejected: %v", err2)
+						}
 						return
 					}
+				}
+				failed = 0
+				for _, tx := range sel {
+					c.Inc("mined:" + tx.TxType().Name())
 				}
 				c.Inc("blocks_processed")
 				op("producer", "block")
@@ -414,8 +502,12 @@ func runC40(c *kit.Ctx) {
 	}
 	wg.Wait()
 	_ = r
+	c.Max(fmt.Sprintf("max:storm_seconds:%s", era), int64(time.Since(t1).Seconds()))
 
 	// ---- quiescent consistency ----
+	for _, f := range c40AfterStorm {
+		f(c, nd)
+	}
 	l := nd.Replay()
 	for _, is := range l.Issues {
 		c.Violate("ledger:"+is.Kind, fmt.Sprintf("after storm: height %d tx %s: %s", is.Height, is.TxID, is.Detail), nil)
@@ -438,6 +530,17 @@ func runC40(c *kit.Ctx) {
 	c.Sample(map[string]interface{}{"shard": c.Shard, "final_height": nd.Height(), "pool_left": len(seen), "blocks_goal": blocksGoal})
 }
 
+func c40NodeGenerated(tx interfaces.Transaction) bool {
+	switch tx.TxType() {
+	case common2.NextTurnDPOSInfo, common2.CRCAppropriation, common2.CRAssetsRectify, common2.ProposalResult,
+		common2.CRCProposalRealWithdraw, common2.DposV2ClaimRewardRealWithdraw, common2.VotesRealWithdraw,
+		common2.RevertToPOW, common2.RevertToDPOS, common2.InactiveArbitrators, common2.IllegalBlockEvidence,
+		common2.IllegalProposalEvidence, common2.IllegalVoteEvidence, common2.IllegalSidechainEvidence, common2.UpdateVersion:
+		return true
+	}
+	return false
+}
+
 func pubHex(i int) string {
 	b, _ := node.Key(i).PublicKey.EncodePoint(true)
 	return common.BytesToHexString(b)
@@ -448,4 +551,42 @@ func min(a, b int) int {
 		return a
 	}
 	return b
+}
+
+// c40RaceFamily folds the function-pair signature of a race report onto its
+// root-cause family when both accesses lie in the DPoS/CR consensus state code
+// paths whose unsynchronised access is a recorded known finding; the set of
+// function pairs that fire varies from run to run, the families do not. Every
+// other pair (mempool, blockchain, p2p, database, ...) keeps its exact signature.
+func c40RaceFamily(raw string) string {
+	parts := strings.SplitN(raw, "|", 2)
+	if len(parts) != 2 {
+		return "race:" + raw
+	}
+	pkg := func(fn string) string {
+		if i := strings.LastIndex(fn, "."); i > 0 {
+			// "dpos/state.(*State).foo" -> "dpos/state"; closures appear as "dpos/state."
+			if j := strings.Index(fn, ".("); j > 0 {
+				return fn[:j]
+			}
+			return fn[:i]
+		}
+		return fn
+	}
+	a, b := pkg(parts[0]), pkg(parts[1])
+	state := func(p string) bool { return p == "dpos/state" || p == "cr/state" }
+	valid := func(p string) bool { return p == "core/transaction" || p == "core/types/payload" }
+	switch {
+	case (a == "servers" && state(b)) || (b == "servers" && state(a)):
+		return "race:family:rpc-handlers-read-consensus-state-unlocked"
+	case (valid(a) && state(b)) || (valid(b) && state(a)):
+		return "race:family:tx-validators-read-consensus-state-unlocked"
+	case a == "dpos/state" && b == "dpos/state":
+		return "race:family:dpos-state-two-mutexes"
+	case state(a) && state(b):
+		return "race:family:cr-member-fields-written-without-committee-lock"
+	case a == "core/transaction" && b == "core/transaction":
+		return "race:family:lazy-tx-hash-cache"
+	}
+	return "race:" + raw
 }
